@@ -159,7 +159,7 @@ func TestVerifC18_API(t *testing.T) {
 				from, to = to, from
 			}
 			fromS, toS := vgtPQLTime(from), vgtPQLTime(to)
-			if from.Year() >= 1971 && rapid.IntRange(0, 3).Draw(t, l+".unix") == 0 {
+			if from.Year() >= 1971 && rapid.IntRange(0, 2).Draw(t, l+".unix") == 0 {
 				fromS, toS = fmt.Sprint(from.Unix()), fmt.Sprint(to.Unix())
 			}
 			wantRows := map[uint64]bool{}
